@@ -1,5 +1,8 @@
 /* wfcqueue scenario: real static/wfcqueue.h under the controlled scheduler (strict TSO rule).
-   usage: scen_wfcq PROG SCHED ; thread 0 dequeues ('D' = __cds_wfcq_dequeue_blocking), others enqueue ('E<digit>') */
+   usage: scen_wfcq PROG SCHED ; thread 0 dequeues ('D' = __cds_wfcq_dequeue_blocking), others enqueue ('E<digit>').
+   Further dequeuer-side operations (oracle only, not in the Coq model): d = __cds_wfcq_dequeue_nonblocking (-1 = WOULDBLOCK),
+   w = __cds_wfcq_dequeue_with_state_blocking, s / n = __cds_wfcq_splice_blocking / _nonblocking into a private queue whose content is then
+   recorded, e = cds_wfcq_empty, I = __cds_wfcq_for_each_blocking.  At the end the queue is drained with bounded non-blocking dequeues. */
 #define _LGPL_SOURCE
 #include <urcu/wfcqueue.h>
 #include <stdio.h>
@@ -11,7 +14,14 @@ static struct cds_wfcq_head h; static struct cds_wfcq_tail tl; static struct cds
 static char *prog[MAXTH]; static int nprog;
 static void body(int t){ for(char *p=prog[t]; *p; p++){
 	if(*p=='E'){ struct cds_wfcq_node *x=&n[p[1]-'0']; p++; vs_call("enq",(unsigned long)x); int r=cds_wfcq_enqueue(&h,&tl,x); vs_ret("enq",r); }
-	else if(*p=='D'){ vs_call("deq",0); struct cds_wfcq_node *x=__cds_wfcq_dequeue_blocking(&h,&tl); vs_ret("deq",(unsigned long)x); } } }
+	else if(*p=='D'){ vs_call("deq",0); struct cds_wfcq_node *x=__cds_wfcq_dequeue_blocking(&h,&tl); vs_ret("deq",(unsigned long)x); }
+	else if(*p=='d'){ vs_call("deqnb",0); struct cds_wfcq_node *x=__cds_wfcq_dequeue_nonblocking(&h,&tl); vs_ret("deqnb",x==CDS_WFCQ_WOULDBLOCK?(unsigned long)-1:(unsigned long)x); }
+	else if(*p=='w'){ int st=0; vs_call("deqs",0); struct cds_wfcq_node *x=__cds_wfcq_dequeue_with_state_blocking(&h,&tl,&st); vs_note("state %d",st); vs_ret("deqs",(unsigned long)x); }
+	else if(*p=='s'||*p=='n'){ struct cds_wfcq_head h2; struct cds_wfcq_tail t2; struct cds_wfcq_node *x; char buf[256]; int l=0; buf[0]=0; vs_quiet_begin(); cds_wfcq_init(&h2,&t2); vs_quiet_end();
+		vs_call(*p=='s'?"splice":"splicenb",0); enum cds_wfcq_ret r = *p=='s' ? __cds_wfcq_splice_blocking(&h2,&t2,&h,&tl) : __cds_wfcq_splice_nonblocking(&h2,&t2,&h,&tl);
+		if(r!=CDS_WFCQ_RET_WOULDBLOCK) __cds_wfcq_for_each_blocking(&h2,&t2,x){ l+=sprintf(buf+l,"%d,",(int)(x-n)); } vs_note("chain %s",buf); vs_ret(*p=='s'?"splice":"splicenb",(unsigned long)r); }
+	else if(*p=='e'){ vs_call("empty",0); int r=cds_wfcq_empty(&h,&tl); vs_ret("empty",r); }
+	else if(*p=='I'){ struct cds_wfcq_node *x; char buf[256]; int l=0; buf[0]=0; vs_call("iter",0); __cds_wfcq_for_each_blocking(&h,&tl,x){ l+=sprintf(buf+l,"%d,",(int)(x-n)); } vs_note("chain %s",buf); vs_ret("iter",0); } } }
 int main(int argc,char**argv){
 	static char obuf[1<<20]; setvbuf(stdout,obuf,_IOFBF,sizeof obuf);
 	if(argc<3) return 9;
@@ -20,4 +30,5 @@ int main(int argc,char**argv){
 	vs_region(&h.node,sizeof h.node,"head"); vs_region(&tl,sizeof tl,"tail"); vs_region(n,sizeof n,"n");
 	for(int i=0;i<nprog;i++) vs_spawn(body);
 	vs_run(argv[2]);
+	{ printf("- drain"); int tries=0; for(;;){ struct cds_wfcq_node *x=__cds_wfcq_dequeue_nonblocking(&h,&tl); if(x==CDS_WFCQ_WOULDBLOCK){ if(++tries>50){ printf(" WOULDBLOCK"); break; } continue; } if(!x) break; printf(" %d",(int)(x-n)); } printf("\n"); }
 	fflush(stdout); _exit(0); }
